@@ -277,6 +277,68 @@ def rule_factors_model(chk, tree):
     return len(cases)
 
 
+def rule_hmin_model(chk, tree):
+    """Integrator.compute_h_minimum interpreted (E8) on model arrays: h_minimum is the smallest h over every array that holds particles (whatever their tag - "the
+    smallest smoothing length"), read from a minimum refreshed in this call; arrays without particles are skipped (the cached minimum of an empty array is meaningless)"""
+    import itertools
+    from verif_static import emit as EM, absint as AI
+    cls = M.find_class(tree, 'Integrator')
+    fn = M.find_func(cls, 'compute_h_minimum')
+    INF = float('inf')
+    saved = AI.EXTERNAL_CALLS.get('numpy.inf')
+
+    def arr(name, total, real, hmin, on_gpu=False):
+        col = EM.mock(minimum=-3.0, maximum=99.0)            # stale cache: smaller than any h
+
+        def refresh(i, a, k, n, e):
+            col.attrs['minimum'] = hmin if total > 0 else 1e-30
+            return None
+
+        def count(i, a, k, n, e):
+            r_ = k.get('real', a[0] if a else False)
+            return real if r_ else total
+        if on_gpu:
+            def upd(i, a, k, n, e):
+                if 'h' in a[0]:
+                    refresh(i, a, k, n, e)
+                return None
+            g = EM.mock(get_device_array=lambda i, a, k, n, e: col if a[0] == 'h' else EM.mock(minimum=-5.0), update_minmax_cl=upd, get_number_of_particles=count)
+            return EM.mock(name=name, gpu=g, get_number_of_particles=count, get_carray=lambda i, a, k, n, e: EM.mock(minimum=-9.0, update_min_max=lambda *x: None))
+        col.attrs['update_min_max'] = refresh
+        return EM.mock(name=name, gpu=None, get_number_of_particles=count, get_carray=lambda i, a, k, n, e: col if a[0] == 'h' else EM.mock(minimum=-5.0, update_min_max=lambda *x: None))
+    SPEC = {'fluid': ('fluid', 5, 5, 0.4, False), 'ghosts': ('ghosts', 4, 0, 0.1, False), 'empty': ('empty', 0, 0, None, False), 'dev': ('dev', 3, 2, 0.25, True),
+            'devempty': ('devempty', 0, 0, None, True), 'coarse': ('coarse', 2, 2, 0.9, False)}
+    cases = [c for r in (1, 2, 3) for c in itertools.permutations(('fluid', 'ghosts', 'empty', 'coarse'), r)] + [('dev',), ('devempty', 'coarse'), ('coarse', 'dev', 'empty'), ('empty',), ()]
+    bad, und = [], None
+    for names in cases:
+        it = EM.interpreter()
+        integ = EM.instance(it, INT, 'Integrator', acceleration_evals=[EM.mock(particle_arrays=[arr(*SPEC[n_]) for n_ in names])], h_minimum=None)
+        try:
+            EM.call(it, integ, 'compute_h_minimum')
+        except AI.Unsupported as e:
+            und = 'arrays %s: %s' % (list(names), e)
+            break
+        got = integ.attrs.get('h_minimum')
+        if isinstance(got, AI.External) and got.key in ('numpy.inf', 'numpy.Inf', 'math.inf'):
+            got = INF
+        want = min([INF] + [SPEC[n_][3] for n_ in names if SPEC[n_][1] > 0])
+        try:
+            same_v = float(got) == want
+        except Exception:
+            und = 'arrays %s: h_minimum is %r' % (list(names), got)
+            break
+        if not same_v:
+            bad.append((names, got, want))
+    if und:
+        chk.undecided('fold-identity', 'h-minimum:model-run', node=fn, file=INT, func='compute_h_minimum', detail='not interpretable on the model: ' + und)
+    else:
+        chk.decide(not bad, 'fold-identity', 'h-minimum:model-run', node=fn, file=INT, func='compute_h_minimum',
+                   detail_bad='for the model arrays %s (particles, real particles, smallest h: %s) h_minimum comes out as %s, the smallest h of the arrays that hold particles is %s'
+                              % ((list(bad[0][0]), [SPEC[n_][1:4] for n_ in bad[0][0]], bad[0][1], bad[0][2]) if bad else ('', '', '', '')),
+                   detail_ok='%d orders / selections of six model arrays (CPU and GPU with stale cached minima, only ghost particles, empty)' % len(cases))
+    return len(cases)
+
+
 def _is_inf(e):
     return compact(e) in [x.replace(' ', '') for x in INF]
 
@@ -336,19 +398,21 @@ def rule_step_value(chk, tree, order):
         if isinstance(rv, ast.Constant) and rv.value is None:
             n_none += 1
             # None is returned exactly when no criterion applies or the minimum is not positive: the path decided `isinf(m) or m <= 0` that way
-            dec = [e for e in p_ if e.kind == 'cond' and 'isinf' in U(e.node)]
+            dec = [e for e in p_ if e.kind == 'cond' and 'isinf' in U(PT.resolve(e.node, e.env))]
             if not dec:
                 bad.setdefault('none-when-no-criterion', 'a path returns None without testing the minimum for inf / non-positive')
             continue
         n_crit += 1
-        # a step is only returned after the minimum was found finite AND positive
-        def refuted(e, what):
-            parts = e.node.values if isinstance(e.node, ast.BoolOp) and isinstance(e.node.op, ast.Or) else [e.node]
-            return e.kind == 'cond' and not e.truth and any(what(x) for x in parts)
-        fin = any(refuted(e, lambda x: isinstance(x, ast.Call) and (M.call_name(x) or '').endswith('isinf')) for e in p_)
-        posv = any(refuted(e, lambda x: isinstance(x, ast.Compare) and any(N.same(x, '%s <= 0' % nm_) for nm_ in [y.id for y in ast.walk(x) if isinstance(y, ast.Name)])) for e in p_) or \
-            any(e.kind == 'cond' and e.truth and isinstance(e.node, ast.Compare) and any(N.same(e.node, '%s > 0' % nm_) for nm_ in [y.id for y in ast.walk(e.node) if isinstance(y, ast.Name)]
-                                                                                   if nm_ not in fvars) for e in p_)
+        # a step is only returned after the minimum was found finite AND positive (facts established by the path, locals substituted)
+        facts_ = PT.path_facts(p_)
+        fvals = [compact(PT.resolve(ast.Name(id=fv_, ctx=ast.Load()), p_[-1].env)) for fv_ in fvars] + fvars
+
+        def about_min(x):
+            # a comparison of something that is not one of the factors with zero
+            return isinstance(x, ast.Compare) and len(x.ops) == 1 and not any(compact(s_) in fvals for s_ in (x.left, x.comparators[0]))
+        fin = any(not tr_ and isinstance(x, ast.Call) and (M.call_name(x) or '').endswith('isinf') for x, tr_ in facts_)
+        posv = any(about_min(x) and ((not tr_ and N.same(x, '%s <= 0' % U(x.left), '0 >= %s' % U(x.comparators[0]))) or (tr_ and N.same(x, '%s > 0' % U(x.left), '0 < %s' % U(x.comparators[0]))))
+                   for x, tr_ in facts_)
         if not (fin and posv):
             bad.setdefault('none-when-no-criterion', 'a step is returned on a path that has not found the minimum both finite and positive (None must be returned when it is inf or <= 0)')
         if None in pos:
@@ -604,9 +668,14 @@ def main(chk):
     chk.decide(any(r.startswith('-') for r in rets) and any('max' in r for r in rets), 'fold-identity', 'Integrator._my_max',
                node=mm, file=INT, func='_my_max', detail_bad='empty input does not map to a value below every admissible maximum',
                detail_ok='empty -> negative sentinel')
-    n = rule_fresh(chk, INT, t)
+    # (private helpers of the integrator inlined: a refresh that lives in an extracted helper is seen where it is called)
+    icls_raw = M.find_class(t, 'Integrator')
+    icls_inl = M.inlined_class(icls_raw, keep=set(('_get_dt_adapt_factors', '_get_explicit_dt_adapt', '_my_max')) | set(n_ for n_ in M.methods(icls_raw) if not n_.startswith('_')))
+    M.set_parents(icls_inl)
+    n = rule_fresh(chk, INT, ast.Module(body=[icls_inl], type_ignores=[]))
     chk.floor('cached min/max reads in integrator.py', n, 1)
     rule_provenance(chk, t)
+    chk.floor('model runs of compute_h_minimum', rule_hmin_model(chk, t), 40)
     rule_fallback(chk)
     rule_consulted_every_step(chk)
     units = [INT, SOL]
